@@ -52,9 +52,16 @@ func isGhostComp(c string) bool { return strings.HasPrefix(c, "Ghost$") }
 
 var modulePkgNames = []string{"openapi3filter", "openapi3gen", "openapi2conv", "openapi3", "openapi2", "gorillamux", "pathpattern", "routers", "legacy"}
 
+// constComps: package variables declared `global nonnil` (assigned once, in init): no havoc
+// ever changes them.
+var constComps = map[string]bool{}
+
 func compClass(c string) string {
 	if isGhostComp(c) {
 		return "ghost"
+	}
+	if constComps[c] {
+		return "const"
 	}
 	if c == "alloc" {
 		return "other"
@@ -149,6 +156,9 @@ type FnVC struct {
 	extraAssume []string // known-finding guards: assumed at entry
 	unmodelled map[string]bool
 	constCapture map[ssa.Value]TV
+	nonNilAt map[string][]*ssa.BasicBlock
+	nonNilGlobals []string
+	usedNonNil map[*ssa.Global]bool
 	useKeys  bool // the contract speaks about keys(xs): emit the element-set facts
 	faComps  map[string]faInfo // field components whose address escaped as a pointer term
 	faOrder  []string
@@ -178,7 +188,7 @@ func newFnVC(p *Prog, fn *ssa.Function, fc *FuncContract, id string) *FnVC {
 		vals: map[ssa.Value]Val{}, reach: map[*ssa.BasicBlock]string{}, out: map[*ssa.BasicBlock]*State{},
 		compSort: map[string]string{}, params: map[string]Val{}, freshRef: map[string]bool{},
 		loops: map[*ssa.BasicBlock]*loopInfo{}, backEdge: map[[2]*ssa.BasicBlock]bool{}, oblNames: map[string]int{},
-		rangeSeen: map[*ssa.Range]string{}, unmodelled: map[string]bool{}, constCapture: map[ssa.Value]TV{}, keyTerms: map[string][]string{}, faComps: map[string]faInfo{}}
+		rangeSeen: map[*ssa.Range]string{}, unmodelled: map[string]bool{}, constCapture: map[ssa.Value]TV{}, keyTerms: map[string][]string{}, faComps: map[string]faInfo{}, usedNonNil: map[*ssa.Global]bool{}, nonNilAt: map[string][]*ssa.BasicBlock{}}
 	if fn.Pkg != nil {
 		vc.pkg = fn.Pkg.Pkg
 	} else if fn.Parent() != nil && fn.Parent().Pkg != nil {
@@ -437,7 +447,18 @@ func (vc *FnVC) globalComp(g *ssa.Global) (comp, sort string) {
 	t := g.Type().(*types.Pointer).Elem()
 	sort = vc.enc.sortOf(t)
 	comp = "G$" + sanitize(g.Pkg.Pkg.Name()) + "$" + g.Name()
-	vc.regComp(comp, sort)
+	if _, known := vc.compSort[comp]; !known {
+		vc.regComp(comp, sort)
+		if vc.prog.cs.NonNilGlobals[g.Pkg.Pkg.Path()+"::"+g.Name()] {
+			// declared `global nonnil`: initialised once to a non-nil value (checked by scan),
+			// hence non-nil in every state
+			constComps[comp] = true
+			vc.nonNilGlobals = append(vc.nonNilGlobals, comp)
+			vc.usedNonNil[g] = true
+			vc.emit(not(eq(comp+"!e0", vc.enc.zeroOfSort(sort, t))))
+			vc.enc.declConst(comp+"!e0", sort)
+		}
+	}
 	return
 }
 
